@@ -163,17 +163,23 @@ func (h *timerHeap) Pop() any {
 	return x
 }
 
+const (
+	fairBound    = 3000
+	maxTimeJumps = 64
+)
+
 // Stats counts what happened in a run.
 type Stats struct {
-	Steps         int
-	Switches      int
-	Blocks        int
-	TimerFires    int
-	TimeJumps     int
-	LockContended int
-	SelectMulti   int // selects with more than one ready case
-	Tasks         int
-	MaxRunnable   int
+	Steps          int
+	Switches       int
+	Blocks         int
+	TimerFires     int
+	TimeJumps      int
+	LockContended  int
+	SelectMulti    int // selects with more than one ready case
+	Tasks          int
+	MaxRunnable    int
+	ForcedSwitches int
 }
 
 // Sched is one simulated execution.
@@ -202,6 +208,7 @@ type Sched struct {
 	lowPrio   int
 	rr        int
 	lastSite  string
+	streak    int
 	budgetHit bool
 	// Trace, when set, receives one line per scheduling point (debugging
 	// aid for the determinism self-test; never used in checks).
@@ -552,18 +559,40 @@ func (s *Sched) point(site string) {
 		s.lowPrio--
 		s.cur.prio = s.lowPrio
 	}
-	if len(s.timers) > 0 && s.cfg.TimeJumpPct > 0 && s.ch.Pct(s.cfg.TimeJumpPct) {
+	// clock jumps are a fault: they stop after maxTimeJumps per run
+	if len(s.timers) > 0 && s.cfg.TimeJumpPct > 0 && s.Stats.TimeJumps < maxTimeJumps && s.ch.Pct(s.cfg.TimeJumpPct) {
 		s.Stats.TimeJumps++
 		s.fireNext()
 	}
 	r := s.runnable()
 	if len(r) <= 1 {
+		s.streak = 0
 		return
 	}
 	next := s.pick(r, true)
 	if next == s.cur {
-		return
+		// Bounded unfairness: a routine that never blocks (a polling loop)
+		// must not starve the others for ever under a strict-priority or
+		// run-to-block policy - the real runtime is preemptive. After
+		// FairBound consecutive points another runnable task is forced in.
+		s.streak++
+		if s.streak <= fairBound {
+			return
+		}
+		s.Stats.ForcedSwitches++
+		if s.changes != nil {
+			s.lowPrio--
+			s.cur.prio = s.lowPrio
+		}
+		var others []*Task
+		for _, t := range r {
+			if t != s.cur {
+				others = append(others, t)
+			}
+		}
+		next = others[s.ch.Intn(len(others))]
 	}
+	s.streak = 0
 	t := s.cur
 	s.pairs[s.lastSite+"->"+site]++
 	s.switchTo(next, site)
